@@ -606,6 +606,20 @@ impl<'tcx> Cx<'tcx> {
         if !tcx.is_mir_available(did) {
             return None;
         }
+        // derive-generated code (serde, schemars, Clone, Debug, ...) is not product logic: the rule engine
+        // models those calls by name, their bodies are not dumped
+        if kind == DefKind::AssocFn {
+            let imp = tcx.parent(did);
+            if matches!(tcx.def_kind(imp), DefKind::Impl { .. }) && tcx.is_automatically_derived(imp) {
+                return None;
+            }
+        }
+        {
+            let dp = tcx.def_path(did).to_string_no_crate_verbose();
+            if dp.contains("::_::") || dp.contains("::_#") {
+                return None;
+            }
+        }
         let body: &Body<'tcx> = tcx.optimized_mir(did);
         let (file, line_lo, exp) = self.line(body.span);
         let sm = tcx.sess.source_map();
